@@ -189,6 +189,24 @@ impl Conn {
         }
     }
 
+    /// Everything the server sends until the socket stays silent for `quiet` (at most 3 s).
+    pub fn collect_until_quiet(&mut self, quiet: Duration) -> Vec<String> {
+        let mut out = vec![];
+        let deadline = Instant::now() + Duration::from_millis(3000);
+        let mut last = Instant::now();
+        loop {
+            let got = self.take_messages();
+            if !got.is_empty() {
+                last = Instant::now();
+                out.extend(got);
+            }
+            if last.elapsed() > quiet || Instant::now() > deadline {
+                return out;
+            }
+            self.fill(Duration::from_millis(5));
+        }
+    }
+
     /// Lines that arrived without a command of this session (notifications).
     pub fn poll(&mut self, wait: Duration) -> Vec<String> {
         self.fill(wait);
